@@ -53,17 +53,27 @@ func rawSubject(rdns [][]attr) []byte {
 var apiPlain = []string{"US", "WA", "Notary", "notary", "Notar", "Notary1", "Notation Inc", "Seattle", "alice", "a", "x", "ACME Corp", "dev", "Dev", "98101"}
 var apiSpicy = []string{"a,b", "a+b", "a=b", "a;b", "#lead", " lead", "trail ", "a\\b", "a\"b", "<a>", "back\\", "a  b", "x#y", "1+1=2", "C=US", "p, q; r", "a:b", "*"}
 
+// values that are valid UTF-8 beyond ASCII (leaf kind "utf8")
+var apiUTF8 = []string{"Z\u00fcrich", "\u682a\u5f0f\u4f1a\u793e", "na\u00efve \U0001f511", "\u00a0nbsp\u00a0", "Stra\u00dfe 1, M\u00fcnchen", "\u00c9", "caf\u00e9", "cafe"}
+
+var apiUTF8Mode bool // set while the subject of a leaf of kind "utf8" is drawn
+
 func apiValue(rng *Rng, spicy bool) string {
+	if apiUTF8Mode && rng.Chance(1, 2) {
+		return Pick(rng, apiUTF8)
+	}
 	if spicy && rng.Chance(1, 2) {
 		return Pick(rng, apiSpicy)
 	}
 	return Pick(rng, apiPlain)
 }
 
-var leafKinds = []string{"plain", "plain", "plain", "spicy", "spicy", "no-mandatory", "two-ou", "unknown-oid", "two-cn", "multi-rdn", "empty", "eqhash-value", "minimal"}
+var leafKinds = []string{"plain", "plain", "plain", "spicy", "spicy", "no-mandatory", "two-ou", "unknown-oid", "two-cn", "multi-rdn", "empty", "eqhash-value", "minimal", "utf8"}
 
 // genSubject draws the RDN sequence of a leaf subject.
 func genSubject(rng *Rng, kind string) [][]attr {
+	apiUTF8Mode = kind == "utf8"
+	defer func() { apiUTF8Mode = false }()
 	spicy := kind == "spicy"
 	attrs := []attr{{"C", apiValue(rng, spicy)}, {"ST", apiValue(rng, spicy)}, {"O", apiValue(rng, spicy)}}
 	if kind != "minimal" {
@@ -109,6 +119,7 @@ type apiChain struct {
 	subjects []string          // Subject.String() as reported for the envelope's chain, leaf first
 	maps     []map[string]string // bridge parse of each subject (nil = does not parse)
 	store    *MockStore
+	ustore   *MockStore // a store "ca:s" that does NOT hold the root of the chain
 	kind     string
 }
 
@@ -181,8 +192,26 @@ func newAPIChainKind(rng *Rng, k int, kind string) (*apiChain, error) {
 	}
 	c.store = NewMockStore()
 	c.store.Put(truststore.TypeCA, "s", chain[n-1].C)
+	c.ustore = NewMockStore()
+	c.ustore.Put(truststore.TypeCA, "s", foreignRoot())
 	c.root = chain[n-1].C
 	return c, nil
+}
+
+var foreignRootCert *x509.Certificate
+
+// foreignRoot: a self-signed CA that issued none of the generated chains.
+func foreignRoot() *x509.Certificate {
+	if foreignRootCert == nil {
+		now := time.Now()
+		at := []attr{{"C", "US"}, {"ST", "WA"}, {"O", "Foreign CA"}, {"CN", "foreign root"}}
+		var rdns [][]attr
+		for _, x := range at {
+			rdns = append(rdns, []attr{x})
+		}
+		foreignRootCert = Mint(CertSpec{RawSubject: rawSubject(rdns), NotBefore: now.Add(-48 * time.Hour), NotAfter: now.Add(48 * time.Hour), IsCA: true}, nil).C
+	}
+	return foreignRootCert
 }
 
 // renderIdentity writes a map as an x509.subject identity value in random
@@ -218,7 +247,7 @@ func cloneMap(m map[string]string) map[string]string {
 var idKinds = []string{"exact", "exact", "subset", "subset", "superset", "near-miss", "near-miss", "ca-subject", "ca-subject",
 	"two-ids", "two-nonmatch", "unknown-prefix", "unknown-prefix+exact", "prefix-case", "wildcard", "empty-attr", "no-sep",
 	"empty-value", "bad-dn", "empty-identity", "wildcard-mixed", "overlap", "none", "eqhash-identity", "space-after-colon",
-	"subset-missing-mandatory", "reversed-superset", "multi-valued-identity", "dup-identity", "bad-then-wildcard"}
+	"subset-missing-mandatory", "reversed-superset", "multi-valued-identity", "dup-identity", "bad-then-wildcard", "dup-empty-first"}
 
 // genIdentities draws the trusted identities for one case on chain c.
 func genIdentities(rng *Rng, c *apiChain, kind string) []string {
@@ -350,6 +379,14 @@ func genIdentities(rng *Rng, c *apiChain, kind string) []string {
 		return []string{x(base) + ",C=US"}
 	case "bad-then-wildcard":
 		return []string{"garbage", "*"}
+	case "dup-empty-first":
+		// the matching identity preceded by an empty-valued attribute of a type it also carries
+		// (pkix.go accepts it: only a non-empty earlier value counts as a duplicate), or followed by it (refused)
+		k := Pick(rng, keys)
+		if rng.Chance(3, 4) {
+			return []string{"x509.subject:" + k + "=," + renderIdentity(rng, base)}
+		}
+		return []string{"x509.subject:" + renderIdentity(rng, base) + "," + k + "="}
 	}
 	return []string{x(base)}
 }
@@ -393,6 +430,8 @@ func classifyVerify(err error) (string, string) {
 		return "VNoMatch", "VNoMatch"
 	case strings.HasPrefix(msg, "trusted identify verification by plugin "):
 		return "VPluginFail", "VPluginFail"
+	case isStoreFailure(err):
+		return "VStoreFail", "VStoreFail"
 	case strings.HasPrefix(msg, leafPrefix):
 		inner, uerr := strconv.Unquote(msg[len(leafPrefix):])
 		if uerr == nil {
@@ -406,6 +445,12 @@ func classifyVerify(err error) (string, string) {
 	return "", "other: " + Short(msg, 120)
 }
 
+// isStoreFailure: the error of notation-core-go's VerifyAuthenticity (chain not rooted in the trust stores).
+func isStoreFailure(err error) bool {
+	var ae *signature.SignatureAuthenticityError
+	return errors.As(err, &ae)
+}
+
 // objects shared by ALL Verify calls of a run (the same map objects, never fresh literals)
 var sharedPluginConfig = map[string]string{"verif.config": "c04", "k": "v"}
 var sharedUserMetadata = map[string]string{}
@@ -414,7 +459,8 @@ func runAPI(a *Args, w *CaseWriter, rng *Rng, nAPI int, next func() (int64, bool
 	// per chain: 10 native cases + 2 cases with a verification plugin named by the
 	// signature + nSys systematic list shapes (rotating through listShapes)
 	const nSys = 12
-	const per = 12 + nSys
+	const nUntrusted = 2 // the same chain under a trust store that does not hold its root
+	const per = 12 + nSys + nUntrusted
 	nChains := nAPI / 12
 	ctx := context.Background()
 	for k := 0; k < nChains; k++ {
@@ -448,13 +494,17 @@ func runAPI(a *Args, w *CaseWriter, rng *Rng, nAPI int, next func() (int64, bool
 				kind = "ca-subject"
 			}
 			plugin := j >= 10 && j < 12
+			untrusted := j >= 12+nSys
 			shape := ""
-			if j >= 12 {
+			if j >= 12 && !untrusted {
 				shape = listShapes[(k*nSys+(j-12))%len(listShapes)]
 				kind = "list:" + shape
 			}
 			if plugin {
 				kind = Pick(cs, []string{"exact", "near-miss", "ca-subject", "subset", "superset", "wildcard", "unknown-prefix", "bad-dn"})
+			}
+			if untrusted {
+				kind = Pick(cs, []string{"exact", "exact", "wildcard", "subset", "near-miss", "ca-subject", "superset", "unknown-prefix", "two-ids", "unknown-prefix+exact", "bad-dn", "none"})
 			}
 			identities := genIdentities(cs, c, kind)
 			if shape != "" {
@@ -467,6 +517,10 @@ func runAPI(a *Args, w *CaseWriter, rng *Rng, nAPI int, next func() (int64, bool
 				late = cs.Chance(2, 3)
 			}
 			logLevel := cs.Chance(1, 5)
+			if untrusted {
+				// mostly level audit: only there the identity check runs after the trust-store failure
+				logLevel = j == 12+nSys || cs.Chance(1, 2)
+			}
 			capTI, capRev, pluginOK := cs.Bool(), true, cs.Bool()
 			if capTI {
 				capRev = cs.Bool()
@@ -474,10 +528,17 @@ func runAPI(a *Args, w *CaseWriter, rng *Rng, nAPI int, next func() (int64, bool
 			if !w.Want(ids[j]) {
 				continue
 			}
-			if plugin {
+			if plugin || untrusted {
 				late = false
 			}
+			store := c.store
+			if untrusted {
+				store = c.ustore
+			}
 			cc := &c04Case{Family: "verify", Late: late, Log: logLevel, Identities: identities, Chain: c.subjects, Kind: kind + "/" + c.kind}
+			if untrusted {
+				cc.Kind = "untrusted:" + cc.Kind
+			}
 			level := "strict"
 			if logLevel {
 				level = "audit"
@@ -525,15 +586,15 @@ func runAPI(a *Args, w *CaseWriter, rng *Rng, nAPI int, next func() (int64, bool
 				doc := OCIPolicy(level, override, []string{"ca:s"}, callerInitial, "")
 				vopts.OCITrustPolicy = doc
 				frame := func(step string, before []snapItem, idsNow []string) {
-					after := snapVerify(doc, idsNow, envelope, apiDesc, c.store, sharedPluginConfig, sharedUserMetadata)
+					after := snapVerify(doc, idsNow, envelope, apiDesc, store, sharedPluginConfig, sharedUserMetadata)
 					for _, what := range frameDiff(before, after) {
 						cc.Obs = "library mutated caller-owned " + what + " during " + step
 						w.ImplViolation(ids[j], "library mutated caller-owned "+what+" ("+step+")", cc, "")
 						w.Count("frame_violation", what)
 					}
 				}
-				snap0 := snapVerify(doc, callerInitial, envelope, apiDesc, c.store, sharedPluginConfig, sharedUserMetadata)
-				v, err := verifier.NewVerifierWithOptions(c.store, vopts)
+				snap0 := snapVerify(doc, callerInitial, envelope, apiDesc, store, sharedPluginConfig, sharedUserMetadata)
+				v, err := verifier.NewVerifierWithOptions(store, vopts)
 				frame("NewVerifierWithOptions", snap0, callerInitial)
 				if err != nil {
 					t, l := classifyConstruct(err.Error())
@@ -548,7 +609,7 @@ func runAPI(a *Args, w *CaseWriter, rng *Rng, nAPI int, next func() (int64, bool
 					doc.TrustPolicies[0].TrustedIdentities = callerIDs
 				}
 				vvo := notation.VerifierVerifyOptions{ArtifactReference: TestRef, SignatureMediaType: c.format, PluginConfig: sharedPluginConfig, UserMetadata: sharedUserMetadata}
-				snap1 := snapVerify(doc, callerIDs, envelope, apiDesc, c.store, sharedPluginConfig, sharedUserMetadata)
+				snap1 := snapVerify(doc, callerIDs, envelope, apiDesc, store, sharedPluginConfig, sharedUserMetadata)
 				outcome, verr := v.Verify(ctx, apiDesc, envelope, vvo)
 				frame("Verify", snap1, callerIDs)
 				if cs.Bool() {
@@ -594,6 +655,11 @@ func runAPI(a *Args, w *CaseWriter, rng *Rng, nAPI int, next func() (int64, bool
 				in = CApp("IPlugin", CBool(capTI), CBool(capRev), CBool(pluginOK), CBool(logLevel), CStrList(identities), CStrList(c.subjects))
 				cc.Plugin = fmt.Sprintf("capabilities: trusted-identity=%v revocation=%v; plugin trusted-identity result success=%v", capTI, capRev, pluginOK)
 				w.Count("verify_plugin", fmt.Sprintf("ti=%v,ok=%v", capTI, pluginOK))
+			}
+			if untrusted {
+				in = CApp("IUntrusted", CBool(logLevel), CStrList(identities), CStrList(c.subjects))
+				cc.Plugin = "trust store ca:s does not hold the root of the chain"
+				w.Count("verify_untrusted", fmt.Sprintf("audit=%v -> %s", logLevel, strings.SplitN(label, ":", 2)[0]))
 			}
 			term := CApp("mk_case", CN(ids[j]), in, obsTerm)
 			nontriv := c.maps[0] != nil && !contains(identities, "*") && anyIdentityParses(identities)
